@@ -192,6 +192,14 @@ Definition chk30 (n : bnode) (ticks : list (list (list val))) (impl : list (list
   let bs := map mkenv ticks in
   verdict (ticks_agree (bexact n) impl (brun n bs)) (C30_holds_b n bs impl).
 
+(* C29 on a flow with NoOrder inputs: the ticks of the case give the actual arrival order (for the
+   model run), [canon] the same batches with the unordered inputs in canonical order; a
+   TotalOrder-typed output must not depend on which admissible arrival order was taken *)
+Definition chk29_perm (n : bnode) (ticks canon : list (list (list val))) (impl : list (list val))
+  : N :=
+  verdict (ticks_agree (bexact n) impl (brun n (map mkenv ticks)))
+          (ticks_agree (bexact n) impl (bspec n (map mkenv canon))).
+
 Definition chk_bemit (n : bnode) (plumbing observed : list string) : N :=
   if toks_eqb (("for_each"%string :: bemit n) ++ plumbing) observed then 0%N else 1%N.
 
